@@ -1,6 +1,6 @@
 PROPERTY = "C09"
 LEVEL = "proof"
-LEAN_MODULES = ["CifModel.Props.C09", "CifModel.Props.C09Buf", "CifModel.Lemmas.NamesLink", "CifModel.Props.ReviewC09"]
+LEAN_MODULES = ["CifModel.Props.C09", "CifModel.Props.C09Buf", "CifModel.Props.C09Api", "CifModel.Lemmas.NamesLink", "CifModel.Props.ReviewC09"]
 REQUIRED = ["CifModel.C09_idempotent", "CifModel.C09_canon_invariant", "CifModel.C09_normal_form_is_caseless_match",
             "CifModel.C09_norm_of_valid", "CifModel.C09_match_iff", "CifModel.C09_invalid_refused",
             "CifModel.C09_table_keys", "CifModel.C09_table_enumeration", "CifModel.C09_packet_names", "CifModel.C09_map_invariant",
@@ -8,7 +8,8 @@ REQUIRED = ["CifModel.C09_idempotent", "CifModel.C09_canon_invariant", "CifModel
             "CifModel.Lemmas.NamesLink.limits_link", "CifModel.Lemmas.NamesLink.spec_limits_link",
             "CifModel.Lemmas.NamesLink.consts_link", "CifModel.Lemmas.NamesLink.bmpDisallowed_link",
             "CifModel.C09_normalize_buffer_refines", "CifModel.C09_unicode_normalize_buffer", "CifModel.C09_fold_case_buffer",
-            "CifModel.C09_normalize_buffer_cstring", "CifModel.C09_normalize_entry_buffer_refines"]
+            "CifModel.C09_normalize_buffer_cstring", "CifModel.C09_normalize_entry_buffer_refines",
+            "CifModel.C09_entry_points", "CifModel.C09_store_block_match"]
 GEN = ["ErrCodes", "NamesConsts"]
 FAMILIES = ["valid", "norm"]
 TRUSTED_BASE = [
